@@ -13,7 +13,7 @@ def f32_of(x):
 
 
 def gen_wig_spec(r):
-    nchrom = r.choice([1, 1, 2, 3, 6])
+    nchrom = r.choice([1, 1, 2, 3, 6, 7, 9, 13, 20])          # up to chromosome trees of four levels at block size 2
     names = bbgen.pick_chroms(r, nchrom)
     chroms = [[n, r.choice([200, 1000, 5000])] for n in names]
     sections = []
@@ -52,13 +52,22 @@ def gen_wig_spec(r):
                 sections.append(dict(chrom=ci, type=3, start=pos, step=step, span=span,
                                      values=[float(r.choice(bbgen.INT_VALUES)) for _ in range(cnt)]))
                 pos += step * (cnt - 1) + span
+    if sections and r.chance(1, 6):
+        # a long run of identical values (UCSC fixed-step sections over a stretch of zeros): a block that compresses very well
+        ci = len(chroms) - 1
+        last_end = max([0] + [x for s_ in sections if s_["chrom"] == ci for x in
+                              ([it[1] if s_["type"] == 1 else it[0] + s_.get("span", 1) for it in s_["items"]] if "items" in s_
+                               else [s_["start"] + s_["step"] * (len(s_["values"]) - 1) + s_["span"]])])
+        n = r.choice([700, 1000, 20000])
+        chroms[ci][1] = max(chroms[ci][1], last_end + n + 10)
+        sections.append(dict(chrom=ci, type=3, start=last_end + 3, step=1, span=1, values=[float(r.choice([0, 0, 5]))] * n))
     if not sections:
         sections = [dict(chrom=0, type=1, items=[[0, 5, 1.0]])]
     return chroms, sections
 
 
 def gen_bed_spec(r):
-    nchrom = r.choice([1, 2, 3, 5])
+    nchrom = r.choice([1, 2, 3, 5, 7, 13])
     names = bbgen.pick_chroms(r, nchrom)
     chroms = [[n, r.choice([200, 1000, 5000])] for n in names]
     sections = []
@@ -68,6 +77,10 @@ def gen_bed_spec(r):
         per = r.choice([1, 2, 3, 8])
         for i in range(0, len(ents), per):
             sections.append(dict(chrom=ci, items=ents[i:i + per]))
+        if ci == len(chroms) - 1 and r.chance(1, 6):
+            # several hundred byte-identical entries in one block: compresses extremely well
+            lo = max([0] + [it[0] for it in ents])
+            sections.append(dict(chrom=ci, items=[[lo, min(size, lo + 10), b"same\tname"]] * r.choice([400, 700, 3000])))
     if not sections:
         sections = [dict(chrom=0, items=[[1, 5, "x"]])]
     return chroms, sections
@@ -82,6 +95,7 @@ def foreign_case(r, cid, bed=None, readers=("plain", "cached"), counter=None):
                 chrom_block_size=r.choice([2, 3, 256]) if len(chroms) > 1 else r.choice([1, 2, 256]),
                 rtree_block_size=r.choice([2, 2, 3, 5, 256]), rtree_layout=r.choice(list(bbi_codec.LAYOUTS)),
                 items_per_slot=r.choice([8, 64, 1024]))
+    spec["items_per_slot"] = max([spec["items_per_slot"]] + [len(s_.get("values", s_.get("items", []))) for s_ in sections])
     kind = "bigbed" if bed else "bigwig"
     if len(chroms) > 1 and r.chance(1, 3):
         # chromosome ids that do NOT follow the name order of the chromosome tree (legal: ids only have to be
